@@ -8,6 +8,7 @@ SRC = "engines/opx/sc_c20.cpp"
 def prebuild():
     opxlib.build("sc_c20", SRC)
     wmmlib.build()
+    wmmlib.build_sys()
 
 
 def jobs(tier):
@@ -60,8 +61,17 @@ def run(ctx):
     # safety verdicts of these runs belong to C01/C02 (reported by their checks); keep the liveness ones here
     ctx.violations = ctx.violations[:nviol_before] + [v for v in ctx.violations[nviol_before:]
                                                       if v.get("kind") in ("stall-on-empty-queue", "stall-on-empty-queue-nonpow2", "deadlock")]
+    # whole system on a 128-byte blocking bounded queue (and the unbounded one at its 256-byte maximum): real log calls that
+    # block, real backend polls on demand; a call still waiting after them is the violation
+    hs = wmmlib.build_sys()
+    sj = [wmmlib.sys_job(hs, "sysbb", 0, 1, "l1,l2,l3,l4,l5"), wmmlib.sys_job(hs, "sysbb", 0, 2, "l1,l2,l3,l4"), wmmlib.sys_job(hs, "sys", 0, 1, "l1,l2,l3,l4,l5,l6,l7,l8,l9,l10")]
+    if ctx.tier != "quick":
+        sj += [wmmlib.sys_job(hs, "sysbb", 0, 2, "l1,l2,l3,l4,l5,l6,l7", deadline=1500), wmmlib.sys_job(hs, "sysbb", 1, 1, "l1,l2,l3,l4", "l1,l2,l3,l4", deadline=1500)]
+    wmmlib.run_sys(ctx, sj)
     ctx.assumptions.append("liveness is expressed as: with the backend polling, the blocked call must return before the system reaches a state in which no actor can act (virtual time is advanced twice before calling it a stall)")
 
 
 def replay(rep, extra):
+    if wmmlib.is_sys_record(rep["record"]):
+        return wmmlib.replay_sys("C09", rep)
     return opxlib.replay("C09", opxlib.build("sc_c20", SRC), rep)
